@@ -1,0 +1,24 @@
+//go:build verif
+// +build verif
+
+package dosnode
+
+import "github.com/DOSNetwork/core/configuration"
+
+// Verification hooks for the chain-event half of the panic-freedom property
+// (build tag verif): thin exports of unexported entry points and fields, no logic of their own.
+
+// VerifEvGetBootIps is getBootIps (the bootstrap document named by the contract's URL).
+func VerifEvGetBootIps(url string) []string { return getBootIps(url) }
+
+// VerifEvSetRoles sets the role flags Start reads from the configuration.
+func (d *DosNode) VerifEvSetRoles(admin, guardian bool) { d.isAdmin, d.isGuardian = admin, guardian }
+
+// VerifEvSetConfig sets the configuration onchainLoop's reconnect path reads.
+func (d *DosNode) VerifEvSetConfig(c *configuration.Config) { d.config = c }
+
+// the guardian handlers Start's heartbeat loop runs on chain getter results
+func (d *DosNode) VerifEvHandleGroupFormation() bool        { return d.handleGroupFormation() }
+func (d *DosNode) VerifEvHandleRandom(b uint64) bool        { return d.handleRandom(b) }
+func (d *DosNode) VerifEvHandleBootstrap(b uint64) bool     { return d.handleBootstrap(b) }
+func (d *DosNode) VerifEvHandleGroupDissolve(b uint64) bool { return d.handleGroupDissolve(b) }
